@@ -95,25 +95,34 @@ def jsonable(x, depth=0):
     return repr(x)
 
 # The function families are compositions of the double-double operators: their accuracy claims presuppose that +, -, *, / (every
-# operand pairing) are the algorithms C03 / C04 / C05 establish.  A defect in an operator body breaks these properties as well, so
-# their checks carry those form rules as a dependency obligation (rule RO).
-OPERATOR_DEPENDENT = ("C12", "C13", "C14", "C15", "C16", "C17", "C18", "C19")
+# operand pairing) are the algorithms C03 / C04 / C05 establish, and validity of every operator result (C01) rests on the same
+# conformance.  A defect in an operator body breaks these properties as well, so their checks carry those form rules as a
+# dependency obligation (rule RO).  Likewise a family that is built on another family's functions (log2 on exp2, ln on exp,
+# powf on ln and exp, the hyperbolics on exp / ln / sqrt, asin on sqrt) carries that family's rules (rule RF).
+OPERATOR_DEPENDENT = ("C01", "C12", "C13", "C14", "C15", "C16", "C17", "C18", "C19")
+FAMILY_DEPENDS = {"C14": ("C15",), "C15": ("C14",), "C17": ("C13",), "C18": ("C13", "C14", "C15")}
 
 def operator_dependencies(ctx, rep, prop):
-    if prop not in OPERATOR_DEPENDENT:
-        return
-    from . import rules_arith
-    for pid, fn in (("C03", rules_arith.check_C03), ("C04", rules_arith.check_C04), ("C05", rules_arith.check_C05)):
+    from . import rules_arith, registry
+    deps = []
+    if prop in OPERATOR_DEPENDENT:
+        deps += [("RO", "C03", rules_arith.check_C03), ("RO", "C04", rules_arith.check_C04), ("RO", "C05", rules_arith.check_C05)]
+    for d in FAMILY_DEPENDS.get(prop, ()):
+        deps.append(("RF", d, registry.PROPS[d][0]))
+    for rule, pid, fn in deps:
         sub = Report(pid, rep.tier, rep.seed)
         fn(ctx, sub)
         n_ok = 0
         for o in sub.obl:
             if o["status"] == "violation":
-                rep.fail("RO", "%s %s %s" % (pid, o["rule"], o["instance"]), "%s:%s" % (pid, o["key"]),
-                         "an operator this family is composed of does not conform (%s, rule %s): %s" % (pid, o["rule"], o["message"]), o.get("data"), o.get("where"))
+                if (pid, o["key"]) in Known().known:
+                    continue      # a recorded finding of the other property (reported there as KNOWN-FINDING)
+                rep.fail(rule, "%s %s %s" % (pid, o["rule"], o["instance"]), "%s:%s" % (pid, o["key"]),
+                         "%s this property is composed of does not conform (%s, rule %s): %s" % ("an operator" if rule == "RO" else "a function", pid, o["rule"], o["message"]), o.get("data"), o.get("where"))
             else:
                 n_ok += 1
-        rep.ok("RO", "operator forms of %s" % pid, detail="%d obligations of %s hold on the operators this family is composed of" % (n_ok, pid), nontrivial=False)
+        rep.ok(rule, "%s of %s" % ("operator forms" if rule == "RO" else "function forms", pid),
+               detail="%d obligations of %s hold on the %s this property is composed of" % (n_ok, pid, "operators" if rule == "RO" else "functions"), nontrivial=False)
 
 def run_property(prop, fn, level, tier, seed, checker_cmd, explanation, assumptions, rule_text):
     """Runs fn(ctx, rep); prints VIOLATION / KNOWN-FINDING lines; writes evidence; returns exit code."""
